@@ -73,6 +73,9 @@ type Doc struct {
 	// IDLast: visit the _id field after the other fields instead of first
 	// (zapx must not depend on the position).
 	IDLast bool `json:"idlast,omitempty"`
+	// IDDV: the _id field carries the DocValues option (the API accepts any
+	// options on _id; bleve itself does not set this one).
+	IDDV bool `json:"iddv,omitempty"`
 }
 
 // Batch is the input of one build.
@@ -189,6 +192,9 @@ func Build(b *Batch) *Seg {
 	for dn, d := range b.Docs {
 		s.IDs = append(s.IDs, d.ID)
 		s.Post["_id"][d.ID] = append(s.Post["_id"][d.ID], Hit{Doc: uint64(dn), Freq: 1, NormLen: 1})
+		if d.IDDV {
+			s.DVField["_id"] = true
+		}
 
 		// index: merge same-named instances in visiting order (composite first)
 		type acc struct {
